@@ -444,8 +444,9 @@ func c11Legacy(run *evid.Run, cfg Cfg, r *rand.Rand) {
 // c11Large: stores holding hundreds of records (more than any iterator prefetch window): the export must
 // still be exact for every key and the re-imported instance must decide like the restarted original.
 func c11Large(run *evid.Run, cfg Cfg, r *rand.Rand) {
-	for round := 0; round < cfg.N(2, 12) && run.NumViolations() < 5; round++ {
-		nkeys := []int{130, 320, 75, 1000}[round%4]
+	for round := 0; round < cfg.N(3, 12) && run.NumViolations() < 5; round++ {
+		// More than a thousand records (two per key) in quick as well: paging bugs start there.
+		nkeys := []int{130, 1100, 320, 75, 2600, 1000}[round%6]
 		baseO, baseR := filepath.Join(cfg.Work, "large-orig"), filepath.Join(cfg.Work, "large-reimport")
 		_ = os.RemoveAll(baseO)
 		_ = os.RemoveAll(baseR)
